@@ -645,6 +645,13 @@ class World:
       res['status'] = 'ok'
     elif op == 'Register':
       res['status'] = self.register(o['conf'])
+    elif op == 'QueryConst':
+      try:
+        res['val'] = self.to_spec(gin.query_parameter(dotted(o['name'])))
+        res['status'] = 'ok'
+      except Exception as e:  # pylint: disable=broad-except
+        res['status'] = type(e).__name__
+        res['msg'] = str(e)
     elif op == 'ParseImport':
       try:
         gin.parse_config('import %s\n' % o['module'])
@@ -916,6 +923,8 @@ def compare_out(want, got):
     exp = {'name': None, 'list': list(want['comps']), 'clear': []}[want['how']]
     if exp is not None and got.get('yielded') != exp:
       return ('yielded', exp, got.get('yielded'))
+  if want['op'] == 'QueryConst' and want['status'] == 'ok' and got.get('status') == 'ok' and want['val'] != got.get('val'):
+    return ('val', want['val'], got.get('val'))
   if want['op'] == 'Query' and want['status'] == 'ok' and want['val'] != got.get('val'):
     return ('val', want['val'], got.get('val'))
   if want['op'] == 'GetBindings' and want['status'] == 'ok' and got['status'] == 'ok':
